@@ -297,6 +297,17 @@ def run(ctx):
     flt = [p_ for p_ in calls(cw, r'Option::<T>::(filter|and_then|take_if)$') if any(c.endswith('ElementType::find_sub_element') for c in deep_sources(cw, cw.blocks[p_[0]]['term']['args'][0], depth=8)[1])]
     C.check(not flt, 'C17-SIB-columns', 'walk|target-definition-not-filtered', 'the definition found for the target version is filtered before it is used (e.g. by the element\'s current type): elements whose definition changes between versions are reported as incompatible although the relabelled file loads',
             cw.where(flt[0]) if flt else '')
+    # character content is judged by the specification the element has in the TARGET version (the type re-selected for it), like the
+    # attributes: chardata_spec() is asked of that type, not of the element's current type
+    cds = calls(cw, r'ElementType::chardata_spec$')
+    okc = bool(cds)
+    for q in cds:
+        n_, c_, f_ = deep_sources(cw, cw.blocks[q[0]]['term']['args'][0], depth=12)
+        if not any(c.endswith('recalc_element_type') for c in c_) or 'ElementRaw.elemtype' in f_:
+            okc = False
+    C.check(okc, 'C17-SIB-columns', 'walk|character-data-spec-of-the-target-type', 'the compatibility walk takes the character data specification from the element\'s CURRENT type instead of the type it has in the target version: '
+            'a value that the target version restricts (string -> pattern, enum with other items) is reported compatible, set_version succeeds and the file no longer loads strictly', cw.where(cds[0]) if cds else '',
+            sample={'fn': 'check_version_compatibility', 'chardata_spec_of': 'recalc_element_type(target_version)'})
     # the version a file is written with is the version stored in the file: serialize() rewrites the schema location of the root
     # from ArxmlFileRaw.version on EVERY path before the text is produced (set_version() itself only stores the version)
     C.rule('C17-MUST-header', 'ArxmlFile::serialize calls AutosarModelRaw::set_version(self.version) on every path before Element::serialize_internal: after a successful set_version() the serialized header always names the new version (no conditional / try-lock around the update)')
